@@ -33,6 +33,7 @@ type rawReq struct {
 	conn       int
 	wantType   thrift.TMessageType
 	wantApp    int32
+	wantAppAlt int32 // a second acceptable exception type (0: none)
 	wantFields []int16
 	replies    [][]byte
 	sent       bool
@@ -146,7 +147,12 @@ func serverHarness(rc *RunCtx) {
 				p.method = "noSuchMethod"
 				fields = []rawField{{1, thrift.STRING, "x"}, {2, thrift.STRUCT, []rawField{{1, thrift.I32, int32(1)}}}}
 				r.kind = "unknown-method"
-				if tp.Intn("req", 3) == 0 {
+				if tp.Intn("unkmal", 4) == 0 {
+					// both at once: a method the server does not have, and arguments that end early. Still a request
+					// with decodable headers: one EXCEPTION reply (either reason is an appropriate one)
+					r.kind = "malformed"
+					rc.Fault("unknown-method-with-malformed-arguments")
+				} else if tp.Intn("req", 3) == 0 {
 					p.oneway = true // a oneway-typed message for a method the server does not have
 					rc.Fault("unknown-method-oneway")
 				}
@@ -209,6 +215,9 @@ func serverHarness(rc *RunCtx) {
 			rc.Fault("unknown-method")
 		case r.kind == "malformed":
 			r.wantType, r.wantApp = thrift.EXCEPTION, thrift.PROTOCOL_ERROR
+			if p.method == "noSuchMethod" {
+				r.wantAppAlt = thrift.UNKNOWN_METHOD
+			}
 		case p.outcome == "undeclared" || p.outcome == "transporterr" || p.outcome == "protoerr":
 			r.wantType, r.wantApp = thrift.EXCEPTION, thrift.INTERNAL_ERROR
 			rc.Fault("handler-undeclared-error")
@@ -511,7 +520,7 @@ func serverHarness(rc *RunCtx) {
 				rc.Violate("C14", "reply-message-type", key+" "+r.kind, fmt.Sprintf("%s: message type %d, expected %d (app type %d %q)", where, rep.mtype, r.wantType, rep.appType, rep.appMsg))
 				continue
 			}
-			if rep.mtype == thrift.EXCEPTION && rep.appType != r.wantApp {
+			if rep.mtype == thrift.EXCEPTION && rep.appType != r.wantApp && !(r.wantAppAlt != 0 && rep.appType == r.wantAppAlt) {
 				rc.Violate("C14", "reply-exception-type", key+" "+r.kind, fmt.Sprintf("%s: exception type %d, expected %d (%q)", where, rep.appType, r.wantApp, rep.appMsg))
 			}
 			if rep.mtype == thrift.REPLY && fmt.Sprint(rep.fieldIDs) != fmt.Sprint(r.wantFields) && !(len(rep.fieldIDs) == 0 && len(r.wantFields) == 0) {
